@@ -18,7 +18,7 @@ from hv.world import Chooser, World
 from haiway.helpers.throttling import throttle  # noqa: E402
 
 ID = "C15"
-TECHNIQUE = "exhaustive enumeration of arrival patterns on a P/2 grid x all tie orders of equal-deadline timers, real throttle in exact virtual time"
+TECHNIQUE = "exhaustive enumeration of arrival patterns on a P/2 grid x all tie orders of equal-deadline timers, real throttle in exact virtual time; explicit-state search over canonical states to a fixpoint for at most K outstanding calls"
 RULE = (
     "n calls with inter-arrival gaps in {0, P/2, P, 3P/2}, limit 1..3, period as float or "
     "timedelta, call duration in {0, P/2, P, 2P}, optionally one failing call (own exception class, or one of 13 built-in classes a wrapper might handle itself); all orders of timers "
@@ -26,6 +26,7 @@ RULE = (
     "/ outcome of the other calls); two throttled functions used interleaved (own windows); long patterns of 8..16 calls (a gap cycle of length <= 2 repeated, then <= 2 free gaps; limits 1..4; tie orders with a stated deviation bound); non-trivial = at least one call was delayed or more than `limit` calls "
     "arrived within one period"
 )
+RULE += " Fixpoint searches: arrive / fire the earliest timer / idle P/2 histories of EVERY length with at most K = 2, 3, 4 (6) calls outstanding, limits 1-3, durations 0, P/2, 3P/2 (window, order, no needless delay, own outcome, nobody stuck evaluated online)."
 RULE += ' Round 11: periods 9/8192 s, 1 + 1/1024 s, timedelta(days=1, microseconds=15625), int; round 13: two same-named functions with the same settings.'
 ASSUMPTIONS = [
     "virtual time in exact dyadic units (P = 1.0 as float, 1.5 s as timedelta)",
@@ -79,6 +80,12 @@ def programs(tier: str):
                             }
     yield from _cancel_programs(tier)
     yield from _long_programs(tier)
+    # explicit-state searches run to a fixpoint: arrival patterns of EVERY length on the P/2 grid
+    # with at most K calls outstanding
+    for active in (2, 3, 4) if tier == "quick" else (2, 3, 4, 6):
+        for limit in (1, 2, 3):
+            for dur in (0.0, 0.5, 1.5):
+                yield {"fix": True, "active": active, "limit": limit, "dur": dur, "validate": "first" if tier == "quick" else "all", "deadline_s": 3000}
     for n in (2, 3, 4) if tier == "quick" else (2, 3, 4, 5):
         for gaps in itertools.product(GAPS, repeat=n - 1):
             for limit in (1, 2):
@@ -224,6 +231,12 @@ def _two_throttles(program, ch: Chooser) -> Result:
         w.close()
 
 
+class _Token:
+    """opaque argument identifying one call"""
+
+    rec: dict
+
+
 class TSys:
     """One throttled function driven operation by operation (hv.xstate.fixpoint interface): a new
     call arrives, the earliest timer fires (the clock jumps there), or the clock idles P/2 ahead when
@@ -248,8 +261,11 @@ class TSys:
         self.starts: list[float] = []  # start times of the last calls (absolute)
         sys_ = self
 
-        async def inner(n):
-            rec = next(c for c in sys_.calls if c["n"] == n)
+        async def inner(token):
+            # (the call is identified by an opaque token: a growing call number among the arguments
+            # would keep the canonical states apart for ever)
+            rec = token.rec
+            n = rec["n"]
             rec["started"] = sys_.vt.now()
             sys_.starts.append(rec["started"])
             sys_.new_starts.append(n)
@@ -304,7 +320,8 @@ class TSys:
         # no needless delay: the head waiter is not kept waiting while there is room
         waiting = [c for c in self.calls if c["started"] is None]
         recent = sum(1 for t in self.starts if t > now - self.P)
-        if waiting and recent < self.limit:
+        nxt_ = self.loop.next_deadline()
+        if waiting and recent < self.limit and not (nxt_ is not None and nxt_ <= now):  # (a wake-up due at this very instant has not fired yet)
             self.viols.append(viol("no-needless-delay", f"fix/limit={self.limit}", "the first waiting call starts as soon as fewer than `limit` calls began in the last period", {"waiting": len(waiting), "recent starts": recent}, history=list(self.hist)))
         # nobody is stuck: a waiting / running call always has a timer ahead
         if self.calls and self.loop.next_deadline() is None:
@@ -319,7 +336,9 @@ class TSys:
             self.ncalls += 1
             rec = {"n": n, "arrived": self.vt.now(), "started": None, "task": None}
             self.calls.append(rec)
-            rec["task"] = self.loop.create_task(self.fn(n), name=f"call{n}")
+            tok = _Token()
+            tok.rec = rec
+            rec["task"] = self.loop.create_task(self.fn(tok), name="call")
         elif op == "fire":
             grp = self.loop.due_group()
             self.loop.fire(grp[0])
